@@ -26,4 +26,27 @@ def specStream : Nat → Bytes → List SOut
       | some r => .value (b.take (b.length - r.length)) :: specStream fuel r
       | none => [.err]
 
+/-- The same stream with the POSITIONS of its elements in the whole input: `specStreamPos fuel pos b` is the stream of the
+bytes `b` that begin at position `pos`. A value is reported with `(start, stop)`: the position of its first byte and the
+position just after its last byte; the end of the input and an error are reported with the position where the stream stops
+(after the white space) twice. `InputOffset` after a successful `Decode` must lie between the `stop` of the value just
+returned and the `start` of the next element. -/
+def specStreamPos : Nat → Nat → Bytes → List (SOut × Nat × Nat)
+  | 0, _, _ => []
+  | fuel + 1, pos, b =>
+    let b' := ws b
+    let start := pos + (b.length - b'.length)
+    if b'.isEmpty then [(.eof, start, start)]
+    else match value (3 * b'.length + 8) 10000 b' with
+      | some r =>
+        let stop := start + (b'.length - r.length)
+        (.value (b'.take (b'.length - r.length)), start, stop) :: specStreamPos fuel stop r
+      | none => [(.err, start, start)]
+
+/-- `Parse`: the bytes after the first value and the white space that follows it (`none`: the input does not begin, after
+white space, with a value) -/
+def specParseRem (b : Bytes) : Option Bytes :=
+  let b' := ws b
+  (value (3 * b'.length + 8) 10000 b').map ws
+
 end Enc.Spec.Json
